@@ -43,6 +43,9 @@ type Case struct {
 	PendR    int    `json:"pendr"`   // goroutines blocked in Read per side
 	PendW    int    `json:"pendw"`   // goroutines calling Write per side
 	PendU    int    `json:"pendu,omitempty"`
+	// PeerWriteFail: from the moment of the Close on, every transport write of the OTHER side fails
+	// (path gone, ICMP unreachable): its reply to the close_notify cannot be sent.
+	PeerWriteFail bool `json:"peerwfail,omitempty"`
 }
 
 func epsFor(v string) (cl, sv scen.EP, resumed bool) {
@@ -228,6 +231,16 @@ func run(c Case, r *pbt.R) {
 			}
 		}
 		rc.mu.Unlock()
+		if c.PeerWriteFail && len(closing) == 1 {
+			for name := range closing {
+				peer := "S"
+				if name == "S" {
+					peer = "C"
+				}
+				sides[peer].EP.WriteErr = errors.New("vnet: network is unreachable")
+				r.Class("peer-write-fails")
+			}
+		}
 		closeAt := p.Net.Now()
 		tapMark := len(p.Net.Events())
 		var cwg sync.WaitGroup
@@ -503,6 +516,10 @@ func gen(t *rapid.T) Case {
 		c.PendR, c.PendW, c.PendU = 0, 0, 0
 	}
 
+	if c.Who != "both" && c.When == "established" {
+		c.PeerWriteFail = rapid.IntRange(0, 2).Draw(t, "peerwfail") == 0
+	}
+
 	return c
 }
 
@@ -522,6 +539,9 @@ func enumGrid(tier string, yield func(Case) bool) {
 						}
 					}
 				}
+			}
+			if who != "both" && !yield(Case{Variant: v, Who: who, When: "established", Closers: 1, Times: 1, PendR: 1, PeerWriteFail: true}) {
+				return
 			}
 			if !yield(Case{Variant: v, Who: who, When: "established", Closers: 2, Times: 2, PendR: 2, PendW: 1}) {
 				return
